@@ -1,7 +1,125 @@
 """C08: block macro machine simulates the base machine exactly."""
+import collections
+import os
+import random
+from . import core
 from .macrosim import check_sim
 LEVEL = "proof"
 
 
+def opt_block_ref(prog, steps):
+    """src/blocks.rs opt_block re-read on plain cells (no run-length tape): the cycle structure is
+    the compressed tape's, so the reference keeps blocks as [colour, count] lists only to count them."""
+    rows = [r.split(" ") for r in prog.split("  ")]
+
+    def get(q, c):
+        if q >= len(rows) or c >= len(rows[q]) or rows[q][c] == "...":
+            return None
+        s = rows[q][c]
+        return int(s[0]), s[1] == "R", ord(s[2]) - 65
+
+    def run(n, measure):
+        l, r, scan, q = [], [], 0, 0          # spans nearest-first
+        steps_done, maxb, maxstep = 0, 0, 0
+        for _ in range(n):
+            ins = get(q, scan)
+            if ins is None:
+                return None
+            color, shift, nq = ins
+            same = q == nq
+            pull, push = (r, l) if shift else (l, r)
+            if measure and same and scan == 0 and not pull:
+                return None
+            steps_done += 1
+            b = len(l) + len(r)
+            if b > maxb:
+                maxb, maxstep = b, steps_done
+            # Tape::step
+            stepped = 1
+            if pull and same and pull[0][0] == scan:
+                stepped += pull[0][1]
+                pull.pop(0)
+            if not pull:
+                nscan = 0
+            else:
+                nscan = pull[0][0]
+                if pull[0][1] > 1:
+                    pull[0][1] -= 1
+                else:
+                    pull.pop(0)
+            if push and push[0][0] == color:
+                push[0][1] += stepped
+            elif push or color != 0:
+                push.insert(0, [color, stepped])
+            scan, q = nscan, nq
+        if measure:
+            return maxstep
+        cells = []
+        for c, k in reversed(l):
+            cells += [c] * k
+        cells.append(scan)
+        for c, k in r:
+            cells += [c] * k
+        return cells
+
+    ms = run(steps, True)
+    if ms is None:
+        return 1
+    tape = run(ms, False)
+    opt, minc = 1, 1 + len(tape)
+    for k in range(1, len(tape) // 2):
+        size = len(tape)
+        for i in range(0, len(tape) - 2 * k, k):
+            if tape[i:i + k] == tape[i + k:i + 2 * k]:
+                size -= k
+        if size < minc:
+            minc, opt = size, k
+    return opt
+
+
+def check_blocks(rep, tier, seed):
+    """Glue below C08 (src/blocks.rs opt_block chooses the block size handed to make_block_macro):
+    real code vs compiled model BB/Model/Blocks.lean vs a cell-level re-reading.  No listed property
+    is anchored in blocks.rs, so a disagreement here is REPORTED (evidence + note) but is not a
+    violation of C08."""
+    rng = random.Random(seed * 7919 + 808)
+    lines = []
+    for p in core.NAMED:
+        for n in (40, 300, 1500):
+            lines.append(f"optblock {n} | {p}")
+    for _ in range(4000 if tier == "thorough" else 700):
+        st, co = rng.choice([(2, 2), (3, 2), (2, 3), (4, 2), (2, 4), (3, 3), (5, 2)])
+        p = core.rand_prog(rng, st, co, p_undef=rng.choice([0.0, 0.0, 0.0, 0.1]))
+        lines.append(f"optblock {rng.choice([10, 50, 200, 600, 1500])} | {p}")
+    impl = core.run_harness(lines)
+    model = core.run_driver(lines)
+    dist = collections.Counter()
+    mism, ref_mism = [], []
+    for l, a, b in zip(lines, impl, model):
+        dist[a if a in ("BAD-OP", "PANIC") else ("1" if a == "1" else "2..4" if int(a) <= 4 else ">4")] += 1
+        if a != b:
+            mism.append({"case": l, "impl": a, "model": b})
+        steps, prog = l.split(" | ")
+        if a not in ("BAD-OP", "PANIC") and str(opt_block_ref(prog, int(steps.split(" ")[1]))) != a:
+            ref_mism.append({"case": l, "impl": a})
+    info = {"cases": len(lines), "answers": dict(dist), "model_mismatches": len(mism),
+            "cell_reference_mismatches": len(ref_mism), "first_mismatches": (mism + ref_mism)[:5]}
+    if os.path.exists(os.path.join(core.LEAN, "BB", "Audit", "C08b.lean")):
+        ok, msg = core.build_lean(("BB.Props.Blocks",))
+        res, _, wanted = core.audit("C08b") if ok else ({}, "", [])
+        info["auxiliary_theorems"] = {t: sorted(res.get(t, {"<missing>"})) for t in wanted} if ok else "build failed: " + msg[-800:]
+        badax = [t for t in wanted if not res.get(t, {"<missing>"}) <= core.ACCEPTED_AXIOMS] if ok else ["build"]
+        if badax:
+            rep.notes.append(f"glue (src/blocks.rs, outside the listed properties): auxiliary theorems not discharged: {badax[:6]}")
+    if mism or ref_mism:
+        rep.notes.append(f"glue (src/blocks.rs opt_block, outside the listed properties): {len(mism)} model / {len(ref_mism)} "
+                         f"cell-reference disagreement(s), first: {(mism + ref_mism)[0]}")
+    rep.cov["glue_blocks_rs"] = info
+
+
 def check(rep, tier, seed, replay):
+    try:
+        check_blocks(rep, tier, seed)
+    except Exception as e:      # the glue comparison must never take the property's check down
+        rep.notes.append(f"glue (src/blocks.rs) comparison did not run: {e!r}")
     check_sim(rep, "C08", tier, seed)
